@@ -24,6 +24,7 @@ type w2Opts struct {
 	nops int
 	cfgMod func(*server.Config)
 	preStart func(w *World) // after the world exists, before the first node starts
+	netMod func(*NetConfig)
 }
 
 var c12Keys = []string{"a", "b", "c", "d", "k/1", "k/2", "k/3", "k/1/x", "k/1/y", "k/2/x", "/", "/a", "a/", "m-n", "z", "zz/top/deep/er",
@@ -485,7 +486,11 @@ func (wl *w2Workload) restart() bool {
 
 func newW2(r *Run, tag string, opts w2Opts) *w2Workload {
 	g := NewRng(r.Seed, tag)
-	w := NewWorld(r, defaultNetCfg(g))
+	ncfg := defaultNetCfg(g)
+	if opts.netMod != nil {
+		opts.netMod(&ncfg)
+	}
+	w := NewWorld(r, ncfg)
 	wal.DefaultFactoryOptions.SegmentSize = int32([]int{2048, 8192, 65536, 1 << 20}[g.Intn(4)])
 	r.Knobs["wal_segment"] = wal.DefaultFactoryOptions.SegmentSize
 	wl := &w2Workload{r: r, w: w, g: g, opts: opts, closed: map[int64]bool{}}
